@@ -13,6 +13,7 @@ def run(vc, tier):
     c = vc.Check('C08', tier, 'exploration', RULE)
     dicts = vc.catalogue(tier, kind='dicts')
     r1 = c.run_vx_unit('c08-roundtrip', SRC, 'asan', ['--mode', 0, '--dicts', dicts, '--D', 0], share=0.6)
+    c.run_vx_unit('c08-rawcontent', SRC, 'asan', ['--mode', 3, '--dicts', dicts, '--D', 0], share=0.4)
     r2 = c.run_vx_unit('c08-corrupt', SRC, 'asan', ['--mode', 1, '--dicts', dicts, '--D', 0], share=0.9)
     c.run_vx_unit('c08-hashset', SRC, 'asan', ['--mode', 2, '--dicts', dicts, '--D', 0], share=0.9)
     c.extra['frames_with_matches_into_dictionary'] = r1.stats.get('frames_with_matches_into_dictionary', 0)
